@@ -230,9 +230,13 @@ def shards(tier, seed):
         out.append({'part': 'G', 'nw': nw, 'seed': seed})
     depth, depth_nd = (4, 2) if tier == 'quick' else (6, 3)
     for ri in range(len(SEQ_ROOTS)):
-        for mi in range(len(SEQ_MODES)):
-            for fi in range(len(SEQ_FORMATS)):
-                out.append({'part': 'seq', 'root': ri, 'first': [mi, fi], 'depth': depth, 'dedup': True})
+        if tier == 'quick':
+            for mi in range(len(SEQ_MODES)):
+                for fi in range(len(SEQ_FORMATS)):
+                    out.append({'part': 'seq', 'root': ri, 'first': [mi, fi], 'depth': depth, 'dedup': True})
+        else:
+            # deep search: one explorer per root (sharding by first event would re-explore the same closure in every shard)
+            out.insert(0, {'part': 'seq', 'root': ri, 'first': None, 'depth': depth, 'dedup': True})
         out.append({'part': 'seq', 'root': ri, 'first': None, 'depth': depth_nd, 'dedup': False})
     return out
 
